@@ -122,7 +122,7 @@ def check(prog, res, tier):
         out = set()
         for p in runs.inv:
             for e in p.events:
-                if e.kind == 'for-iter' and e.func == fname and isinstance(e.data['iterable'], RangeV):
+                if e.kind == 'for-iter' and e.under(fname) and isinstance(e.data['iterable'], RangeV):
                     r = e.data['iterable']
                     lo, hi = p.store.canon(Lin.of(r.lo)), p.store.canon(Lin.of(r.hi))
                     out.add((lo.c if lo.is_const() else str(lo), hi.c if hi.is_const() else str(hi)))
@@ -132,14 +132,14 @@ def check(prog, res, tier):
     rd = set()
     for p in du.loads.inv:
         for e in p.events:
-            if e.kind == 'for-iter' and e.func == dfi.short:
+            if e.kind == 'for-iter' and e.under(dfi.short):
                 itv = e.data['iterable']
                 if isinstance(itv, RangeV):
                     lo, hi = p.store.canon(Lin.of(itv.lo)), p.store.canon(Lin.of(itv.hi))
                     rd.add((lo.c if lo.is_const() else str(lo), hi.c if hi.is_const() else str(hi)))
     for r in dits:
         p = r['path']
-        fi_ev = [e for e in p.events if e.kind == 'for-iter' and e.func == dfi.short]
+        fi_ev = [e for e in p.events if e.kind == 'for-iter' and e.under(dfi.short)]
         if fi_ev and isinstance(fi_ev[-1].data['iterable'], RangeV):
             continue
         if r['bit'] is not None:
@@ -236,7 +236,7 @@ def check(prog, res, tier):
                 if kind == 'sym-eq' and data['sym'].name == 'pytype':
                     tags.add(data['const'])
             for e in p.events:
-                if e.kind == 'method' and e.data['name'] == 'get' and e.func == fi.short and e.data['args']:
+                if e.kind == 'method' and e.data['name'] == 'get' and e.under(fi.short) and e.data['args']:
                     k = p.interp.py_key(e.data['args'][0])
                     if k == 'field_date_format':
                         d = p.interp.py_key(e.data['args'][1]) if len(e.data['args']) > 1 else None
